@@ -148,8 +148,10 @@ pub fn mpqs(n: Uint, k: u32, prefs: &Preferences, tpool: Option<&rayon::ThreadPo
         for chunk in d_r_values.chunks(16) {
             wks.batch_inversion(&s, chunk.iter().map(|&(d, _)| d).collect());
             for (idx, (d, r)) in chunk.iter().enumerate() {
+                #[cfg(yamaquasi_verif)] crate::verif::ev(|| format!("\"op\":\"poly\",\"st\":\"mpqs\",\"idx\":{}", idx));
                 mpqs_poly(&s, idx, *d, r, wks);
                 if s.finished() {
+                    #[cfg(yamaquasi_verif)] crate::verif::ev(|| format!("\"op\":\"unit_interrupt\",\"st\":\"mpqs\",\"idx\":{}", idx));
                     return;
                 }
             }
@@ -163,35 +165,50 @@ pub fn mpqs(n: Uint, k: u32, prefs: &Preferences, tpool: Option<&rayon::ThreadPo
         }
     }
 
+    #[cfg(yamaquasi_verif)] crate::verif::ev(|| format!("\"op\":\"stage\",\"st\":\"mpqs\",\"par\":{},\"tasks\":0,\"fb\":{},\"gap\":0,\"target\":{}", tpool.is_some(), fbase.len(), s.target.load(Ordering::Relaxed)));
     if let Some(pool) = tpool {
         // FIXME: We shouldn't have such a value: iterate and stop when finished.
         let maxblocks = if n.bits() < 256 { 100_000 } else { 1_000_000 };
         pool.install(|| {
             (0..maxblocks).into_par_iter().for_each(|blkno| {
+                #[cfg(yamaquasi_verif)] crate::verif::ev(|| format!("\"op\":\"task\",\"st\":\"mpqs\",\"u\":\"{}\"", blkno));
+                #[cfg(yamaquasi_verif)] crate::verif::ev(|| format!("\"op\":\"pre_poll\",\"st\":\"mpqs\",\"site\":\"par\""));
                 if s.finished() || prefs.abort() {
+                    #[cfg(yamaquasi_verif)] crate::verif::ev(|| format!("\"op\":\"task_skip\",\"st\":\"mpqs\",\"why\":\"done_or_abort\""));
                     return;
                 }
                 let dbase = polybase + blkno as u128 * polystride as u128;
                 // Workspace is reused during the entire block.
                 let mut wks = Workspace::default();
+                #[cfg(yamaquasi_verif)] crate::verif::ev(|| format!("\"op\":\"unit_start\",\"st\":\"mpqs\""));
                 process_poly_block(&s, &mut wks, dbase, polystride as usize);
+                #[cfg(yamaquasi_verif)] crate::verif::ev(|| format!("\"op\":\"unit_end\",\"st\":\"mpqs\""));
             })
         })
     } else {
         let mut wks = Workspace::default();
         for blkno in 0.. {
             let dbase = polybase + blkno as u128 * polystride as u128;
+            #[cfg(yamaquasi_verif)] crate::verif::ev(|| format!("\"op\":\"task\",\"st\":\"mpqs\",\"u\":\"{}\"", blkno));
+            #[cfg(yamaquasi_verif)] crate::verif::ev(|| format!("\"op\":\"unit_start\",\"st\":\"mpqs\""));
             process_poly_block(&s, &mut wks, dbase, polystride as usize);
+            #[cfg(yamaquasi_verif)] crate::verif::ev(|| format!("\"op\":\"unit_end\",\"st\":\"mpqs\""));
+            #[cfg(yamaquasi_verif)] crate::verif::ev(|| format!("\"op\":\"pre_poll\",\"st\":\"mpqs\",\"site\":\"seq\""));
             if prefs.abort() || s.finished() {
+                #[cfg(yamaquasi_verif)] crate::verif::ev(|| format!("\"op\":\"loop_exit\",\"st\":\"mpqs\",\"why\":\"done_or_abort\""));
                 break;
             }
         }
     }
+    #[cfg(yamaquasi_verif)] crate::verif::ev(|| format!("\"op\":\"join\",\"st\":\"mpqs\",\"gap\":0,\"done\":{},\"target\":{},\"polys\":{}", s.done.load(Ordering::Relaxed), s.target.load(Ordering::Relaxed), s.polys_done.load(Ordering::Relaxed)));
+    #[cfg(yamaquasi_verif)] crate::verif::ev(|| format!("\"op\":\"pre_poll\",\"st\":\"mpqs\",\"site\":\"final\""));
     if prefs.abort() {
+        #[cfg(yamaquasi_verif)] crate::verif::ev(|| format!("\"op\":\"sieve_ret\",\"st\":\"mpqs\",\"why\":\"abort\""));
         return vec![];
     }
     let polys_done = s.polys_done.load(Ordering::SeqCst) as u64;
     let mut rels = rels.into_inner().unwrap();
+    #[cfg(yamaquasi_verif)] crate::verif::ev(|| format!("\"op\":\"final_len\",\"st\":\"mpqs\",\"len\":{},\"fb\":{}", rels.len(), fbase.len()));
     if prefs.verbose(Verbosity::Info) {
         rels.log_progress(format!(
             "Sieved {}M {polys_done} polys",
@@ -602,6 +619,7 @@ fn mpqs_poly(s: &SieveMPQS, idx: usize, d: u128, r: &Uint, wks: &mut Workspace) 
         sieve_block_poly(s, &pol, roots12, &mut state);
         state.next_block();
     }
+    #[cfg(yamaquasi_verif)] crate::verif::sched_point("mpqs.polys.inc");
     s.polys_done.fetch_add(1, Ordering::SeqCst);
     wks.recycled = Some(state.recycle());
 }
@@ -672,22 +690,33 @@ impl SieveMPQS<'_> {
     fn finished(&self) -> bool {
         // The relaxed memory ordering is fine, it's okay to do
         // some extra work if threads don't fully synchronize.
+        #[cfg(yamaquasi_verif)] crate::verif::sched_point("mpqs.fin.done");
         if self.done.load(Ordering::Relaxed) {
+            #[cfg(yamaquasi_verif)] crate::verif::ev(|| format!("\"op\":\"fin_done\",\"st\":\"mpqs\""));
             return true;
         }
+        #[cfg(yamaquasi_verif)] crate::verif::sched_point("mpqs.rlen.lock");
         let relcount = { self.rels.read().unwrap().len() };
+        #[cfg(yamaquasi_verif)] crate::verif::ev(|| format!("\"op\":\"r_len\",\"st\":\"mpqs\",\"held\":0,\"v\":{}", relcount));
+        #[cfg(yamaquasi_verif)] crate::verif::sched_point("mpqs.target.load");
         if relcount >= self.target.load(Ordering::Relaxed) {
+            #[cfg(yamaquasi_verif)] crate::verif::sched_point("mpqs.gap.lock");
             let gap = { self.rels.read().unwrap().gap(self.fbase) };
+            #[cfg(yamaquasi_verif)] crate::verif::ev(|| format!("\"op\":\"r_gap\",\"st\":\"mpqs\",\"held\":0,\"rlen\":{},\"len\":{},\"v\":{}", relcount, relcount, gap));
             if gap == 0 {
                 if self.prefs.verbose(Verbosity::Info) {
                     eprintln!("Found enough relations");
                 }
+                #[cfg(yamaquasi_verif)] crate::verif::sched_point("mpqs.done.store");
+                #[cfg(yamaquasi_verif)] crate::verif::ev(|| format!("\"op\":\"st_done\",\"st\":\"mpqs\""));
                 self.done.store(true, Ordering::Relaxed);
                 return true;
             } else {
                 if self.prefs.verbose(Verbosity::Info) {
                     eprintln!("Need {} additional relations", gap);
                 }
+                #[cfg(yamaquasi_verif)] crate::verif::sched_point("mpqs.target.store");
+                #[cfg(yamaquasi_verif)] crate::verif::ev(|| format!("\"op\":\"st_target\",\"st\":\"mpqs\",\"v\":{}", relcount + gap + std::cmp::min(10, self.fbase.len() / 4)));
                 self.target.store(
                     relcount + gap + std::cmp::min(10, self.fbase.len() / 4),
                     Ordering::Relaxed,
@@ -749,6 +778,62 @@ fn sieve_block_poly(s: &SieveMPQS, pol: &Poly, roots: [&[u32]; 2], st: &mut siev
             cyclelen: 1,
         };
         debug_assert!(rel.verify(n));
+        #[cfg(yamaquasi_verif)] crate::verif::sched_point("mpqs.w.lock");
+        #[cfg(yamaquasi_verif)] crate::verif::ev(|| format!("\"op\":\"w_req\",\"st\":\"mpqs\""));
         s.rels.write().unwrap().add(rel, pq);
+        #[cfg(yamaquasi_verif)] crate::verif::ev(|| format!("\"op\":\"w_rel\",\"st\":\"mpqs\""));
+    }
+}
+
+/// Verification accessors (cfg(yamaquasi_verif) only): the crate-private parameter functions, the
+/// private polynomial fields and the batch inversion of D modulo the factor base.
+#[cfg(yamaquasi_verif)]
+pub mod vhook {
+    use super::*;
+
+    pub fn mpqs_interval_size(n: &Uint) -> i64 {
+        super::mpqs_interval_size(n)
+    }
+    pub fn large_prime_factor(n: &Uint) -> u64 {
+        super::large_prime_factor(n)
+    }
+    pub fn double_large_factor(n: &Uint) -> u64 {
+        super::double_large_factor(n)
+    }
+    pub fn poly_c(p: &Poly) -> I256 {
+        p.c
+    }
+    pub fn poly_bb(p: &Poly) -> Uint {
+        p.bb
+    }
+    pub fn poly_dinv(p: &Poly) -> Uint {
+        p.dinv
+    }
+    /// `Workspace::batch_inversion` for the given D values: result[j][i] = 1/ds[j] mod fbase.p(i),
+    /// or 0 when the prime divides ds[j].
+    pub fn batch_dinv(n: &Uint, fbase: &FBase, ds: Vec<u128>) -> Vec<Vec<u32>> {
+        let inverters: Vec<_> = (0..fbase.len())
+            .map(|idx| arith::Inverter::new(fbase.p(idx)))
+            .collect();
+        let prefs = Preferences::default();
+        let rels = RwLock::new(RelationSet::new(*n, fbase.len(), 0));
+        let s = SieveMPQS {
+            n: *n,
+            fbase,
+            inverters: &inverters,
+            maxlarge: 0,
+            use_double: false,
+            interval_size: 0,
+            d_target: 0,
+            rels: &rels,
+            prefs: &prefs,
+            polys_done: AtomicUsize::new(0),
+            target: AtomicUsize::new(0),
+            done: AtomicBool::new(false),
+        };
+        let mut wks = Workspace::default();
+        let k = ds.len();
+        wks.batch_inversion(&s, ds);
+        wks.dinv_modp[..k].iter().map(|b| b.to_vec()).collect()
     }
 }
